@@ -36,6 +36,34 @@ Proof. exact enc_sep_refuted. Qed.
 Theorem C09_enc_nosep_collision : enc false [FStr [97; 98]%N; FStr [99%N]] = enc false [FStr [97%N]; FStr [98; 99]%N].
 Proof. exact enc_nosep_collision. Qed.
 
+(* Linen under lift.jit / fold_rngs (nn.jit, nn.fold_rngs; after the `fix:` commit for F31): the rngs of every scope handed
+   to the transform are materialised -- the path is folded into the key data -- so scopes whose paths are hashed
+   differently draw different keys inside the transform, none of which is a key the root scope draws; the keys of the
+   transformed module itself (forked first, empty suffix) are unchanged; different counts stay apart *)
+Theorem C09_jit_keeps_paths_apart : forall sep root p q c d, p <> [] -> q <> [] -> enc sep p <> enc sep q ->
+  make_rng_key sep (materialise sep (mkLazy root p)) c <> make_rng_key sep (materialise sep (mkLazy root q)) d.
+Proof. exact jit_keeps_paths_apart. Qed.
+Print Assumptions C09_jit_keeps_paths_apart.
+Theorem C09_jit_keys_not_root_keys : forall sep root p c d, p <> [] ->
+  make_rng_key sep (materialise sep (mkLazy (LRoot root) p)) c <> make_rng_key sep (mkLazy (LRoot root) []) d.
+Proof. exact jit_keys_not_root_keys. Qed.
+Print Assumptions C09_jit_keys_not_root_keys.
+Theorem C09_jit_forked_rngs_unchanged : forall sep k, materialise sep (mkLazy k []) = mkLazy k [].
+Proof. exact materialise_forked. Qed.
+Theorem C09_jit_counts_apart : forall sep r c d, enc sep [FInt c] <> enc sep [FInt d] ->
+  make_rng_key sep (materialise sep r) c <> make_rng_key sep (materialise sep r) d.
+Proof. exact jit_counts_apart. Qed.
+Print Assumptions C09_jit_counts_apart.
+(* what the code did before that repair (clear_suffix): every scope handed to lift.jit drew the keys of the root scope *)
+Theorem C09_jit_clear_suffix_refuted : forall sep root p q c,
+  make_rng_key sep (clear_suffix (mkLazy root p)) c = make_rng_key sep (clear_suffix (mkLazy root q)) c /\
+  make_rng_key sep (clear_suffix (mkLazy root p)) c = make_rng_key sep (mkLazy root []) c.
+Proof. exact clear_suffix_collides. Qed.
+Example C09_jit_example :
+  make_rng_key false (materialise false (child_rng (mkLazy (LRoot 0) []) [98%N])) 0 = LFold (LFold (LRoot 0) [98%N]) [] /\
+  make_rng_key false (child_rng (mkLazy (LRoot 0) []) [98%N]) 1 = LFold (LRoot 0) [98; 1]%N.
+Proof. vm_compute. split; reflexivity. Qed.
+
 (* NNX: the k-th call of a stream returns fold_in(key, k); a missing stream uses 'default'; for every history of
    draws, split_rngs and restore_rngs no key is replayed; reseed restarts the stream *)
 Theorem C09_nnx_stream_formula : forall k c, draw (Plain k c) = ([KFold k c], Plain k (c + 1)).
